@@ -322,8 +322,22 @@ def input_classes(S, bs=0):
     if any(2 in s for s in S): cl.add("byte_02")
     if any(0xFE in s for s in S): cl.add("byte_FE")
     if L >= 1000: cl.add("len_ge1000")
+    lc = [lcp(S[i], S[i + 1]) for i in range(n - 1)]
+    if any(x in (127, 128, 129) for x in lc): cl.add("lcp_127_128_129")
+    if any(x >= 128 and x % 128 == 0 for x in lc): cl.add("lcp_mult128")
+    if any(x >= 16384 and ((x >> 7) & 127) == 0 for x in lc): cl.add("lcp_vbyte_zero_middle")
+    if any(S[i + 1][:len(S[i])] == S[i] for i in range(n - 1)): cl.add("member_is_proper_prefix")
+    sigma = len(set(b"".join(S)))
+    if sigma <= 2: cl.add("alphabet_le2")
+    if sigma >= 200: cl.add("alphabet_ge200")
+    if sum(len(s) + 1 for s in S) >= 131072: cl.add("text_ge_128KiB")
+    return cl | bucket_classes(n, bs)
+
+def bucket_classes(n, bs):
+    cl = set()
     if bs:
         if n % bs == 0: cl.add("n_mult_b")
+        if n % bs == 1 and n > bs: cl.add("n_mult_b_plus1")
         if n < bs: cl.add("n_lt_b")
         if n % bs != 0 and n > bs: cl.add("last_bucket_partial")
         if (n + bs - 1) // bs >= 3: cl.add("buckets_ge3")
